@@ -13,43 +13,43 @@ GEN = ('static analysis of the current source: %s. Each rule instance is a neces
        '(tolerances, "for all angles") are not decided.')
 
 META = {
-    'C01': dict(text=GEN % 'closed-producer / normaliser / rotation-table rules (R12, R13, R15, R16)', sec='4 C01',
+    'C01': dict(text=GEN % 'closed-producer / normaliser / rotation-table rules (R12, R13, R15, R16); the transpose of a member is closed only where no SE(n) receiver is possible', sec='4 C01',
                 tech='AST term-table matching, must-pass-through (normaliser) dataflow, closed-producer rule at unchecked constructor sites'),
-    'C02': dict(text=GEN % 'operand order of composition lambdas, division = product with inverse, structured-inverse tables, power/prod folds (R15, R16, R7, R6)', sec='4 C02',
+    'C02': dict(text=GEN % 'operand order of composition lambdas, division = product with inverse, structured-inverse tables, power/prod folds, information dependence of the logarithm used by twist composition, no hidden state in the classes involved (R15, R16, R17, R7, R9)', sec='4 C02',
                 tech='AST term/word normalisation against mathematical tables, abstract interpretation of operator dispatch'),
-    'C04': dict(text=GEN % 'sibling constructors reduce to the same primitive, conversion routing, double-cover equality form (R13, R16, R8)', sec='4 C04',
-                tech='sibling cross-check over resolved callees, term tables'),
-    'C05': dict(text=GEN % 'documented axis orders as rotation words, order-name tables agree, unit/flip/order threading, singular-branch agreement (R12, R10, R8, R16)', sec='4 C05',
-                tech='rotation-word abstract evaluation, option-threading dataflow, sibling-branch specialisation check'),
-    'C06': dict(text=GEN % 'lift-multiply-project and sandwich routes, operand integrity in the array branches, dispatch totality (R16, R7, R2, R1)', sec='4 C06',
+    'C04': dict(text=GEN % 'sibling constructors reduce to the same primitive, conversion routing, double-cover equality form, r2q composed with the q2r table, dual-quaternion pair integrity (R13, R16, R17, R19)', sec='4 C04',
+                tech='sibling cross-check over resolved callees, term tables, symbolic writer/reader composition over polynomial normal forms'),
+    'C05': dict(text=GEN % 'documented axis orders as rotation words, order-name tables agree, unit/flip/order threading, singular-branch agreement, term-by-term composition of tr2rpy/tr2eul with the rpy2r/eul2r words, double-cover parity of the quaternion accessors (R12, R10, R8, R16, R19)', sec='4 C05',
+                tech='rotation-word abstract evaluation, writer/reader composition over polynomial normal forms (no evaluation, no solver), option-threading dataflow, parity analysis'),
+    'C06': dict(text=GEN % 'lift-multiply-project and sandwich routes, operand integrity in the array branches, pose-left/point-right operand roles of every @, no hidden state in the classes involved (R16, R9, R2, R1)', sec='4 C06',
                 tech='routing patterns over resolved calls, reaching-definition check of operands'),
     'C07': dict(text=GEN % 'predicate atoms (R4), validation dominates every store into data (R5), constructors define state on every exit (R3), no silent None (R2)', sec='4 C07',
                 tech='pattern-matched predicate atoms, must-pass-through dataflow on the CFG, typestate of constructors'),
     'C08': dict(text='static analysis: the finite operator x class x class table (10 operators, 21 kinds) is enumerated completely and each cell is decided by abstract interpretation of the resolved dunder bodies over the class-kind lattice, against the documented table; cells that depend on numeric shape tests are reported as undecided. Plus R2/R1/R7 over every binary dunder.', sec='4 C08',
                 tech='abstract interpretation of operator dispatch (MRO, reflected methods, three-valued isinstance) over class kinds; exhaustive table'),
-    'C09': dict(text=GEN % 'four-case broadcasting structure of the two helpers, every vectorised operator reaches a helper, length guards and element kinds in per-value accessors, branch agreement (R7, R8)', sec='4 C09',
+    'C09': dict(text=GEN % 'four-case broadcasting structure of the two helpers, every vectorised operator reaches a helper, length guards and element kinds in per-value accessors, branch agreement, comparison/arithmetic operators return the helper result (R7, R8)', sec='4 C09',
                 tech='guard-fact (must) dataflow on the CFG, element-kind abstract domain, call-graph reachability'),
     'C10': dict(text='static analysis: list equivalence by delegation -- index/slice delegate to list or slice.indices, class-equality and single-value guards dominate every list mutation, no list primitive overridden below UserList, Empty/Alloc/pop shapes; with CPython list/UserList trusted this implies equality with a Python list for every operation history.', sec='4 C10',
                 tech='dominance (must-fact) analysis of guards before mutations, who-defines check over the MRO, delegation patterns'),
-    'C11': dict(text=GEN % 'range guard on every value path, routing, shortest-arc block ordering, endpoint returns, norm-preserving return forms, linear translation form (R14, R16, R2)', sec='4 C11',
+    'C11': dict(text=GEN % 'range guard on every value path, routing, shortest-arc block ordering, endpoint returns, norm-preserving return forms, linear translation form, the shortest test on every path to the angle, shape typestate of the branches (R14, R16, R20, R2)', sec='4 C11',
                 tech='must-pass-through and ordering analysis on the CFG, return-form classification'),
-    'C12': dict(text=GEN % 'product / conjugate / matrix / rate / dual-product term tables, power fold shape (R16, R15, R6)', sec='4 C12',
+    'C12': dict(text=GEN % 'product / conjugate / matrix / rate / dual-product term tables, power fold shape, sign dependence of the quaternion logarithm (R16, R15, R17)', sec='4 C12',
                 tech='polynomial/term-table normalisation of literal matrices and vector expressions'),
-    'C13': dict(text=GEN % 'skew/vex/skewa/vexa writer-reader tables, adjoint/Jacobian blocks, differential-motion group words (R16, R1, R11)', sec='4 C13',
+    'C13': dict(text=GEN % 'skew/vex/skewa/vexa writer-reader tables, adjoint/Jacobian blocks, differential-motion group words, dtype source of allocated results (R16, R1, R11a)', sec='4 C13',
                 tech='term tables, group-word abstract evaluation (inverse/transposition/product order)'),
     'C14': dict(text=GEN % 'normaliser forms and selectors, every stacked column normalised after the cross products, routing of norm()/unit (R16, R13, R1)', sec='4 C14',
                 tech='return-form classification, must-pass-through (unitvec) on constructed columns'),
-    'C15': dict(text=GEN % 'normaliser dominance for every array_like parameter, dimension enforced, unit/order option threading with single conversion, else-raise (R10, R2, R3)', sec='4 C15',
+    'C15': dict(text=GEN % 'normaliser dominance for every array_like parameter, dimension enforced, unit/order option threading with single conversion, else-raise, no unconstrained-length vector reaches a broadcasting slice store (R10, R2, R3)', sec='4 C15',
                 tech='taint/must-pass-through dataflow from documented array_like parameters, option-threading and double-conversion analysis'),
-    'C16': dict(text=GEN % 'no numeric-only primitive on symbol-tainted values in SymPy-marked call trees; object-dtype-aware conversion in the vector normaliser (R11)', sec='4 C16',
+    'C16': dict(text=GEN % 'no numeric-only primitive on symbol-tainted values in SymPy-marked call trees; object-dtype-aware conversion in the vector normaliser; shared SO/SE methods treat elements uniformly; closed-form determinant equals the Leibniz expansion (R11, R18, R16)', sec='4 C16',
                 tech='interprocedural taint analysis from :SymPy: supported marks to numeric-only sinks'),
     'C17': dict(text='static analysis: whole-package may-alias effect analysis with function summaries to a fixpoint; no in-place write can reach storage that may alias a parameter, the receiver of a non-mutating method or module state; random sources only in the documented random constructors. This is the structural content of the property; nothing is executed.', sec='4 C17',
                 tech='interprocedural may-alias / effect (purity) dataflow analysis'),
     'C18': dict(text=GEN % 'twist constructor/accessor tables, unit conversion reaches every use of theta in exp, reflected scalar product (R16, R10, R6, R8)', sec='4 C18',
                 tech='term tables, must-pass-through (getunit) dataflow, operator table'),
-    'C19': dict(text=GEN % 'one moment convention and one plane convention across writers and readers, sign-invariance of the parallelism test (R16, R1, R2, R6)', sec='4 C19',
+    'C19': dict(text=GEN % 'one moment convention and one plane convention across writers and readers, sign-invariance of the parallelism test, point/column branch agreement with the caller tolerance, no hidden state (R16, R10r, R9)', sec='4 C19',
                 tech='term tables with sign (parity) analysis under negation of an operand'),
-    'C20': dict(text=GEN % 'typed guards dominate the arithmetic, cross/adjoint/inertia tables, constructor form tests on the raw argument (R16, R7, R6)', sec='4 C20',
+    'C20': dict(text=GEN % 'typed guards dominate the arithmetic, cross/adjoint/inertia tables, constructor form tests on the raw argument, no hidden state in the pose/twist classes whose adjoint is applied (R16, R7, R9)', sec='4 C20',
                 tech='guard dominance, literal 6x6 table comparison, operator table'),
 }
 NA = {
